@@ -101,8 +101,6 @@ static void plan_gen(DPlan *P, uint64_t seed, const RunOpts *o) {
     /* a co-process that cannot be (re)started makes the VM fall back to in-process FFI by design; a program whose extern
      * kills its executor would then kill the daemon itself.  That combination is the documented fallback, not a client
      * fault: co-process kills are not injected into plans that contain extern_die. */
-    { bool die = false; for (int i = 0; i < P->nclients; i++) die |= strcmp(P->c[i].prog, "extern_die") == 0;
-      if (die) for (int i = 0; i < P->nclients; i++) P->c[i].copkill = 0; }
     if (c18) {
         P->nbad = 1 + (int)sim_rndn(quick ? 6 : 12);
         for (int i = 0; i < P->nbad; i++) {
@@ -115,6 +113,10 @@ static void plan_gen(DPlan *P, uint64_t seed, const RunOpts *o) {
             b->tok = 0;
         }
     }
+    /* (also when extern_die is the module a hostile peer mutates: its session runs the same extern) */
+    { bool die = false; for (int i = 0; i < P->nclients; i++) die |= strcmp(P->c[i].prog, "extern_die") == 0;
+      for (int i = 0; i < P->nbad; i++) die |= strcmp(P->b[i].prog, "extern_die") == 0;
+      if (die) for (int i = 0; i < P->nclients; i++) P->c[i].copkill = 0; }
 }
 static void plan_print(DPlan *P, uint64_t seed, Buf *b) {
     buf_printf(b, "family daemon\nsub %s\nseed %llu\n", P->sub, (unsigned long long)seed);
@@ -338,6 +340,32 @@ static void strip_vmd_lines(Buf *in, Buf *out) {
         i += l;
     }
 }
+/* A lazily launched daemon inherits the launching client's stderr, so its own "[vmd] ..." diagnostics legitimately end up
+ * there and are not compared.  What they may not carry is another session's program text: returns the index of a line of
+ * `other` (12 bytes or longer, not also a line of `own`) that occurs inside one of the "[vmd" lines of `in`, or -1. */
+static bool has_line(Buf *b, const uint8_t *l, size_t n) {
+    size_t i = 0;
+    while (i < b->len) { size_t j = i; while (j < b->len && b->d[j] != '\n') j++; if (j - i == n && memcmp(b->d + i, l, n) == 0) return true; i = j + 1; }
+    return false;
+}
+static bool vmd_lines_carry(Buf *in, Buf *other, Buf *own1, Buf *own2, char *what, size_t wsz) {
+    size_t i = 0;
+    while (i < in->len) {
+        size_t j = i; while (j < in->len && in->d[j] != '\n') j++;
+        if (j - i >= 4 && memcmp(in->d + i, "[vmd", 4) == 0) {
+            size_t a = 0;
+            while (a < other->len) {
+                size_t b = a; while (b < other->len && other->d[b] != '\n') b++;
+                size_t n = b - a;
+                if (n >= 12 && n <= j - i && !has_line(own1, other->d + a, n) && !has_line(own2, other->d + a, n) && memmem(in->d + i, j - i, other->d + a, n)) {
+                    snprintf(what, wsz, "%.*s", (int)(j - i > 200 ? 200 : j - i), (char *)in->d + i); return true; }
+                a = b + 1;
+            }
+        }
+        i = j + 1;
+    }
+    return false;
+}
 static bool buf_eq(Buf *a, Buf *b) { return a->len == b->len && (a->len == 0 || memcmp(a->d, b->d, a->len) == 0); }
 static int exit_code_of(int status) { return WIFEXITED(status) ? WEXITSTATUS(status) : 128 + WTERMSIG(status); }
 
@@ -436,6 +464,14 @@ static void fam_run(uint64_t seed, const RunOpts *o, Result *r) {
         if (strcmp(P.c[i].prog, "extern_die") != 0 && (!ref || !ref->valid)) continue;   /* standalone VM crashed on it: not this property's business */
         if (cl[i]->alive) { res_violation(r, prop, "client-hung:%s", P.c[i].prog); buf_printf(&r->detail, "client%d (%s) never terminated\n", i, P.c[i].prog); continue; }
         Buf e1 = {0}, e2 = {0}; strip_vmd_lines(&cerr[i], &e1); strip_vmd_lines(&ref->err, &e2);
+        for (int j = 0; j < P.nclients; j++) if (j != i) {
+            Ref *rj = client_ref(P.c[j].prog, P.c[j].tok); char wl[256];
+            if (rj && rj->valid && (vmd_lines_carry(&cerr[i], &rj->err, &ref->err, &ref->out, wl, sizeof wl) || vmd_lines_carry(&cerr[i], &rj->out, &ref->err, &ref->out, wl, sizeof wl))) {
+                res_violation(r, "C17", "cross-session-text-on-stderr:%s", is_gen(P.c[j].prog) ? "generated-program" : P.c[j].prog);
+                buf_printf(&r->detail, "client%d (%s) received on its stderr a daemon line that carries text of client%d's (%s) program: [%s]\n", i, P.c[i].prog, j, P.c[j].prog, wl);
+                break;
+            }
+        }
         const char *what = NULL;
         if (!buf_eq(&cout[i], &ref->out)) what = "stdout";
         else if (exit_code_of(cl[i]->status) != exit_code_of(ref->status)) what = "status";
